@@ -38,21 +38,21 @@ def generate(tier, rng):
         sc = list(rng.choice(gen.SCALES_DYADIC))
         u = rng.random()
         if u < 0.18:
-            t = gen.random_itier(rng, tmax=30, maxn=6) if rng.random() < 0.6 else gen.random_ptier(rng, tmax=30, maxn=6)
+            t = gen.random_itier(rng, tmax=30, maxn=6, long_p=0.015) if rng.random() < 0.6 else gen.random_ptier(rng, tmax=30, maxn=6, long_p=0.015)
             q = rng.choice(gen.LABELS + ["a", "b", "x", " ", "y", "-"])
             cases.append({"op": "find", "tier": t, "q": q, "substr": rng.random() < 0.5, "scale": sc})
         elif u < 0.24:
-            t = gen.random_itier(rng, tmax=30, maxn=6) if rng.random() < 0.6 else gen.random_ptier(rng, tmax=30, maxn=6)
+            t = gen.random_itier(rng, tmax=30, maxn=6, long_p=0.015) if rng.random() < 0.6 else gen.random_ptier(rng, tmax=30, maxn=6, long_p=0.015)
             q = rng.choice(["a", "A", "a|b", "^a", "b$", ".", "x y", "[ab]", "a-", "^$", "É", "é"])
             cases.append({"op": "findre", "tier": t, "q": q, "scale": sc})
         elif u < 0.34:
-            t = gen.random_itier(rng, tmax=30, maxn=6)
+            t = gen.random_itier(rng, tmax=30, maxn=6, long_p=0.015)
             t["min"] = max(0, min([t["min"]] + [e[0] for e in t["entries"]]))
             if t["entries"] and t["entries"][0][0] < 0:
                 continue
             cases.append({"op": "nonentries", "tier": t, "scale": sc})
         elif u < 0.46:
-            t = gen.random_itier(rng, tmax=30, maxn=5)
+            t = gen.random_itier(rng, tmax=30, maxn=5, long_p=0.015)
             rows = _rows(rng, rng.randint(0, 10), 32)
             if rng.random() < 0.5:
                 rows.sort()
@@ -60,7 +60,7 @@ def generate(tier, rng):
                 rows.append([rng.choice(t["entries"])[rng.randint(0, 1)], 99])
             cases.append({"op": "valuesin", "tier": t, "rows": rows, "scale": sc})
         elif u < 0.62:
-            t = gen.random_ptier(rng, tmax=30, maxn=6, distinct=rng.random() < 0.7)
+            t = gen.random_ptier(rng, tmax=30, maxn=6, distinct=rng.random() < 0.7, long_p=0.015)
             rows = _rows(rng, rng.randint(0, 10), 32)
             if t["entries"] and rng.random() < 0.6:
                 rows.append([rng.choice(t["entries"])[0], 77])
